@@ -329,15 +329,17 @@ def run (r : Resp) (c : Conn) (xs : List Round) : Conn := xs.foldl (round r) c
 
 /-! ### The reply stream `R` and what is still pending according to the offsets -/
 
-/-- the chunk frames the reply consists of from body position `p` on -/
-def frames (r : Resp) (p : Nat) : Bytes :=
-  if _h : p < r.body.length then
-    let n := capMax r.cbMax (min (sizeToFill0 r) (r.body.length - p))
-    if _h0 : n = 0 then [] else
-      chunkFrame (slice r.body p n) ++ frames r (p + n)
-  else []
-termination_by r.body.length - p
-decreasing_by omega
+/-- the chunk frames the reply consists of from body position `p` on (`fuel` bounds the
+    number of chunks; every chunk advances the position) -/
+def framesAux (r : Resp) : Nat → Nat → Bytes
+  | 0, _ => []
+  | fuel + 1, p =>
+    if p < r.body.length then
+      let n := capMax r.cbMax (min (sizeToFill0 r) (r.body.length - p))
+      if n = 0 then [] else chunkFrame (slice r.body p n) ++ framesAux r fuel (p + n)
+    else []
+
+def frames (r : Resp) (p : Nat) : Bytes := framesAux r (r.body.length - p) p
 
 /-- what follows the header block -/
 def afterHeaders (r : Resp) (p : Nat) : Bytes :=
